@@ -854,6 +854,18 @@ fn load_config_from_string(cfg: &str) -> Result<SharedConfig, Error> {
                 }
                 (Some("addresses"), s) => {
                     addresses = parse_array("addresses", s, parse_string_prefix)?;
+                    /* The DHCP pool for each IPv4 prefix is expanded for every request. */
+                    #[cfg(feature = "dhcp")]
+                    if let Some(Prefix::V4(p4)) = addresses.iter().flatten().find(|p| {
+                        matches!(p, Prefix::V4(p4) if p4.prefixlen < crate::dhcp::config::MIN_POOL_PREFIXLEN)
+                    }) {
+                        return Err(Error::InvalidConfig(format!(
+                            "addresses: {}/{} is too large for an address pool (shortest supported prefix length is /{})",
+                            p4.addr,
+                            p4.prefixlen,
+                            crate::dhcp::config::MIN_POOL_PREFIXLEN
+                        )));
+                    }
                 }
                 (Some("api-listeners"), s) => {
                     listeners = parse_array("api-listeners", s, parse_string_sockaddr)?;
